@@ -69,6 +69,7 @@ func runC16(c *Check, a *Analysis) {
 	p := c.P
 	ruleLockBalance(c, a, "R-LOCK-BALANCE", "Client.lock")
 	ruleSnapshotFresh(c, a, "R-SNAPSHOT-FRESH")
+	ruleUpdateFresh(c, a, "R-UPDATE-FRESH")
 	ls := a.Locks()
 	sc := siteCounter{}
 	c.Rule("R-LOCK", "Client.targets/list/minHeap/last/pos/pending/seq/lastTime are only accessed with Client.lock held", 30)
@@ -769,6 +770,8 @@ func runC18(c *Check, a *Analysis) {
 	ruleLockBalance(c, a, "R-LOCK-BALANCE", "Client.lock")
 	ruleSnapshotFresh(c, a, "R-SNAPSHOT-FRESH")
 	ruleCompletionChanBuffered(c, a, "R-COMPLETION-CHAN", "waiter")
+	ruleUpdateFresh(c, a, "R-UPDATE-FRESH")
+	ruleSnapshotCompare(c, a, "R-SNAPSHOT-COMPARE")
 	ls := a.Locks()
 	sc := siteCounter{}
 	c.Rule("R-LOCK", "Client.pending and Client.seq are only accessed with Client.lock held", 6)
